@@ -1639,6 +1639,7 @@ func runConcModel(r *common.Rand, rp map[string]string, killUS int) {
 			}
 		}
 		n := 2 + r.Intn(2)
+		multi := r.Bool()
 		for g := 0; g < n; g++ {
 			var have, missing, refs []int
 			for _, id := range ids {
@@ -1663,7 +1664,23 @@ func runConcModel(r *common.Rand, rp map[string]string, killUS int) {
 			default:
 				o = ck.Op{Kind: "saveindex"}
 			}
-			sc.Conc = append(sc.Conc, []ck.Op{o})
+			ops := []ck.Op{o}
+			if g%2 == 1 && multi {
+				// a goroutine that makes several calls: what each does is decided when it starts
+				// (the model's gstep), so anything goes: tags of blobs pushed concurrently, untags of
+				// references set concurrently, pushes of blobs that exist by then
+				for k := 0; k < 1+r.Intn(2); k++ {
+					switch r.Intn(4) {
+					case 0:
+						ops = append(ops, ck.Op{Kind: "push", Blob: common.Pick(r, ids)})
+					case 1, 2:
+						ops = append(ops, ck.Op{Kind: "tag", Blob: common.Pick(r, ids), Ref: 1 + r.Intn(3)})
+					default:
+						ops = append(ops, ck.Op{Kind: "untag", Ref: 1 + r.Intn(3)})
+					}
+				}
+			}
+			sc.Conc = append(sc.Conc, ops)
 		}
 	}
 	dir, err := os.MkdirTemp(work, "concm")
@@ -1711,8 +1728,14 @@ func runConcModel(r *common.Rand, rp map[string]string, killUS int) {
 	for _, o := range sc.History {
 		hs = append(hs, o.String())
 	}
+	single := true
 	for _, ops := range sc.Conc {
-		cs = append(cs, ops[0].String())
+		var xs []string
+		for _, o := range ops {
+			xs = append(xs, o.String())
+		}
+		cs = append(cs, strings.Join(xs, "+"))
+		single = single && len(ops) == 1
 	}
 	for _, b := range sc.Blobs {
 		m := 0
@@ -1792,6 +1815,29 @@ func runConcModel(r *common.Rand, rp map[string]string, killUS int) {
 	for _, b := range sc.Blobs {
 		if on[b.ID] {
 			bs = append(bs, strconv.Itoa(b.ID))
+		}
+	}
+	if !single {
+		run.Count("conc-model-compared-queues")
+	}
+	if killUS < 0 && single {
+		// C10_conc_completed_push / _tag / _untag, directly on the directory: a call that has returned
+		// and whose reference no other call of the batch names has its effect in index.json
+		named := map[int]int{}
+		for _, ops := range sc.Conc {
+			if o := ops[0]; o.Kind == "tag" || o.Kind == "untag" {
+				named[o.Ref]++
+			}
+		}
+		for _, ops := range sc.Conc {
+			switch o := ops[0]; {
+			case o.Kind == "push" && !on[o.Blob]:
+				run.OracleFail(id, "conc-completed-lost", fmt.Sprintf("blob %d of a concurrent Push that returned is not stored", o.Blob), rep)
+			case o.Kind == "tag" && named[o.Ref] == 1 && !strings.Contains(obsIdx, fmt.Sprintf("%d@%d", o.Blob, o.Ref)):
+				run.OracleFail(id, "conc-completed-lost", fmt.Sprintf("index.json %s lacks t%d -> blob %d set by a concurrent Tag that returned", obsIdx, o.Ref, o.Blob), rep)
+			case o.Kind == "untag" && named[o.Ref] == 1 && (strings.Contains(obsIdx, fmt.Sprintf("@%d,", o.Ref)) || strings.Contains(obsIdx, fmt.Sprintf("@%d]", o.Ref))):
+				run.OracleFail(id, "conc-completed-lost", fmt.Sprintf("index.json %s still has t%d removed by a concurrent Untag that returned", obsIdx, o.Ref), rep)
+			}
 		}
 	}
 	run.Case(id, "Q "+text+" "+prefix+"I="+obsIdx+";B="+strings.Join(bs, ","), "QREACH yes")
@@ -2029,6 +2075,7 @@ func checkFloors() {
 	need("conc-quiescent", run.Scale(8, 80))
 	need("conc-model-compared", run.Scale(15, 150))
 	need("conc-model-compared-killed", run.Scale(15, 150))
+	need("conc-model-compared-queues", run.Scale(8, 80))
 	need("autosave-off-scripts", run.Scale(8, 60))
 	need("final:reopen", run.Scale(3, 20))
 	need("composite-finals-with-cascade", run.Scale(2, 30))
